@@ -39,13 +39,13 @@ theorem C11_bounded (p : Pool) (h : p.running ≤ p.maxSize) : (tryGrow p).runni
 one — so when all work is done or cancelled the running size returns to zero within one pass, and a
 stop has nothing to wait for. -/
 theorem C11_idle_worker_exits (f : Nat) (p : Pool) (w : Nat) (x : Worker) (hx : p.workers[w]? = some x)
-    (hal : x.alive = true) (hidle : x.task = none) (hq : p.tasks.popMin = none) :
+    (hal : x.alive = true) (hpl : x.plain = false) (hidle : x.task = none) (hq : p.tasks.popMin = none) :
     (resumeWorker (f + 1) p w).running = p.running - 1 ∧
     (resumeWorker (f + 1) p w).workers[w]? = some { x with alive := false } := by
   have hlt : w < p.workers.length := (List.getElem?_eq_some_iff.mp hx).1
   have hstep : resumeWorker (f + 1) p w = setWorker { p with running := p.running - 1 } w { x with alive := false } := by
     unfold resumeWorker
-    simp only [hx, hal, hidle, hq, Bool.not_true, Bool.false_eq_true, if_false]
+    simp only [hx, hal, hpl, hidle, hq, Bool.not_true, Bool.false_eq_true, if_false]
   rw [hstep]
   exact ⟨rfl, by simp [setWorker, hlt]⟩
 
@@ -59,7 +59,32 @@ theorem C11_stop_prompt (p : Pool) (hs : p.state ≠ .stopped) (hr : p.running =
   rw [hg]
   simp [hr, hq, doClean_state]
 
+/-- A task whose coroutine is cancelled while it runs (what the cancel signal does to a running
+task) gives its slot back at once: the count goes down by one before anything else happens, the
+worker is never resumed again, and the listener may start a replacement for the remaining work. -/
+theorem C11_cancelled_worker_slot (f : Nat) (p : Pool) (w : Nat) (x : Worker) (t : Nat) (r : List TStep)
+    (hx : p.workers[w]? = some x) (hal : x.alive = true) (hpl : x.plain = false)
+    (ht : x.task = some t) (hr : x.rest = .cancelSelf :: r) :
+    resumeWorker (f + 1) p w =
+      tryGrow (setWorker { p with running := p.running - 1, droppedTasks := t :: p.droppedTasks } w { x with alive := false }) := by
+  unfold resumeWorker
+  simp only [hx, hal, hpl, ht, hr, Bool.not_true, Bool.false_eq_true, if_false]
+
+/-- A user coroutine submitted with `submit_co` occupies a slot exactly while it is alive. -/
+theorem C11_submit_co_counts (p : Pool) (h : Inv11 p) : Inv11 (submitCo p).1 ∧
+    ((submitCo p).2 = false → (submitCo p).1 = p ∧ (p.state ≠ .running ∨ p.maxSize ≤ p.running)) := by
+  unfold submitCo
+  split
+  · rename_i hst; exact ⟨h, fun _ => ⟨rfl, Or.inl hst⟩⟩
+  · split
+    · rename_i hfull; exact ⟨h, fun _ => ⟨rfl, Or.inr hfull⟩⟩
+    · refine ⟨?_, fun hf => by simp at hf⟩
+      unfold Inv11 countAlive at *; simp [List.countP_append, h]
+
 -- non-vacuity: two tasks, max 1: one worker runs both and leaves; the count returns to 0
 example : ((pass (submit (submit { maxSize := 1 } [.ret 5] 0).1 [.panic] 0).1).map (fun p => (p.running, p.started))) = some (0, [0, 1]) := by decide
+
+-- the last queued task cancels its own coroutine: the count still returns to 0 (seeded change C11)
+example : ((pass (submit (submit { maxSize := 2 } [.ret 5] 0).1 [.cancelSelf] 0).1).map (fun p => (p.running, p.started))) = some (0, [0, 1]) := by decide
 
 end Oc.Props.C11
